@@ -49,3 +49,11 @@ CHECKS["C14"] = c("abci", "TestC14", dict(checks=250, timeout=600), dict(checks=
                         "substore must be identical before/after (or differ only by the attacker's own fee when the attacker names itself as signer). One-sided: success of authorized "
                         "transactions is not predicted here (their effects are judged by C15, C18, C23, C28, C36).",
              level_note="All features active (activation-height variation of the output-address / app-transfer exceptions is exercised by C23/C28); claim/proof messages by C32.")
+
+CHECKS["C16"] = c("abci", "TestC16", dict(checks=200, timeout=600), dict(checks=2000, shards=14, timeout=3000),
+             technique="metamorphic property-based testing: a delivered transaction is resubmitted identically and under generated semantics-preserving protobuf re-encodings (filtered through the real decoder); effect must stay single",
+             design_ref="DESIGN.md §7 C16",
+             level_text="For generated sends the harness produces byte-different encodings that the real decoder maps to the same signed content, resubmits them and the identical bytes in the same, "
+                        "the next and a later block, and demands that none takes effect again. Exploration over the mutator's variant catalogue (17 kinds).",
+             level_note="REDUP (in-block duplicate rejection) is active, as on main-net today; before that activation in-block duplicates execute twice by design and are out of the stated domain. "
+                        "The wire mutator is hand-written and independent of gogoproto.")
